@@ -923,7 +923,11 @@ def c17(out, rec=None):
         if rec is not None:
             rec.skip("c17_zero_dispersion")
         return f
-    rtol = 1e-8
+    # R2: B and Wd are sums of squares of centred data; centring loses about eps*(baseline/spread) per element, so the
+    # legitimate relative error of a correct implementation grows linearly (not quadratically) with baseline/spread
+    spread = math.sqrt(max(float(np.mean((x - x.mean(axis=0)) ** 2)), 1e-300))
+    baseline = float(np.max(np.abs(x.mean(axis=0))))
+    rtol = 1e-10 + 256 * EPS * (1.0 + baseline / spread)
 
     def near(a, b):
         if not math.isfinite(a) or not math.isfinite(b):
